@@ -301,6 +301,32 @@ func c17Time(c *lib.Ctx, idx uint64) {
 		if fit.VerifEncodeTime(t) != 1000000000 {
 			report("encode depends on the location of the time value")
 		}
+		// ... also in zones of the zone database, second by second around every daylight-saving
+		// transition between 1990 and 2100 (the hour that happens twice, the hour that is
+		// skipped), and once an hour in between: the count is a property of the instant.
+		probes := 0
+		for _, z := range lib.TZZones() {
+			for _, tr := range lib.TZTransitions(z) {
+				for d := int64(-7300); d <= 7300; d += 7 {
+					u := tr + d
+					x := u - epochUnix
+					if x <= 0 || x >= 1<<32-1 {
+						continue
+					}
+					probes++
+					if y := fit.VerifEncodeTime(time.Unix(u, 0).In(z)); int64(y) != x {
+						report("encode of instant %d s after the epoch expressed in %v (%v) = %d", x, z, time.Unix(u, 0).In(z), y)
+					}
+				}
+			}
+			for x := int64(3601); x < 1<<32-1; x += 3600*37 + 11 {
+				probes++
+				if y := fit.VerifEncodeTime(time.Unix(epochUnix+x, 0).In(z)); int64(y) != x {
+					report("encode of instant %d s after the epoch expressed in %v = %d", x, z, y)
+				}
+			}
+		}
+		c.Count("instants_encoded_in_zone_database_locations", int64(probes))
 		c.Sample("time", 1, map[string]interface{}{"seconds": 1000000000, "decoded": fit.VerifDecodeDateTime(1000000000).Format(time.RFC3339)})
 	}
 	c.EvalN(1 << 20)
